@@ -179,7 +179,9 @@ func ErrorName(args ...any) {
 	dsl, ok := args[len(args)-1].(func())
 	if ok {
 		args[len(args)-1] = func() {
-			dsl()
+			if dsl != nil {
+				dsl()
+			}
 			Meta("struct:error:name")
 		}
 	} else {
